@@ -71,6 +71,8 @@ def judge(T: dict, case: dict, fns_by_k: dict, reps: int, out: dict) -> None:
                     d = dumper(x)
                 except BaseException as e:  # noqa: BLE001
                     add("C02", "dumper_raises", f"{dt.name}: dump raised {type(e).__name__}: {str(e)[:150]}")
+                    if not case["sub"] and rt:
+                        add("C01", "dump_of_valid_value_raises", f"{dt.name}: dump raised {type(e).__name__}: {str(e)[:150]}")
                     dumped[(s, dt.name)] = ("err", e)
                     continue
                 dumped[(s, dt.name)] = ("ok", d)
